@@ -23,6 +23,7 @@ import (
 	"fmt"
 	"log"
 	"net/http"
+	"sync"
 	"time"
 
 	"context"
@@ -63,6 +64,12 @@ type Connection struct {
 	serverMessages  chan *message
 	protocolVersion int
 	subprotocol     string
+
+	// closed is closed (at most once, guarded by closeOnce) when Close is called.
+	//
+	// The clientMessages channel is never closed, as it has multiple concurrent senders.
+	closed    chan struct{}
+	closeOnce sync.Once
 }
 
 // This map defines the set of headers that should be stripped from the WS request, as they
@@ -135,10 +142,7 @@ func NewConnection(ctx context.Context, targetURL string, header http.Header, er
 			select {
 			case <-ctx.Done():
 				return
-			case clientMsg, ok := <-clientMessages:
-				if !ok {
-					return
-				}
+			case clientMsg := <-clientMessages:
 				if clientMsg == nil {
 					continue
 				}
@@ -146,6 +150,11 @@ func NewConnection(ctx context.Context, targetURL string, header http.Header, er
 					errCallback(fmt.Errorf("failed to forward websocket data to the server: %v", err))
 					// Errors writing to the server connection are terminal; once an error is returned
 					// no subsequent calls will succeed.
+					return
+				}
+				if clientMsg.Type == websocket.CloseMessage {
+					// The close message is only ever sent by the Close method, and is
+					// the last message written; stop writing and close the connection.
 					return
 				}
 			}
@@ -164,17 +173,26 @@ func NewConnection(ctx context.Context, targetURL string, header http.Header, er
 		clientMessages: clientMessages,
 		serverMessages: serverMessages,
 		subprotocol: serverConn.Subprotocol(),
+		closed:         make(chan struct{}),
 	}, nil
 }
 
 // Close closes the websocket client connection.
+//
+// It is safe to call Close multiple times, and concurrently with the other methods.
 func (conn *Connection) Close() {
-	conn.clientMessages <- &message{
-		websocket.CloseMessage,
-		websocket.FormatCloseMessage(websocket.CloseNormalClosure, ""),
-	}
-	// Closing the writing routine.
-	close(conn.clientMessages)
+	conn.closeOnce.Do(func() {
+		close(conn.closed)
+		// The writing routine exits, and closes the connection, after writing the close message.
+		select {
+		case conn.clientMessages <- &message{
+			websocket.CloseMessage,
+			websocket.FormatCloseMessage(websocket.CloseNormalClosure, ""),
+		}:
+		case <-conn.done():
+			// The connection is already closed, and nothing is reading from clientMessages.
+		}
+	})
 }
 
 // SendClientMessage sends the given message to the websocket server.
@@ -221,8 +239,14 @@ func (conn *Connection) SendClientMessage(msg interface{}, injectionEnabled bool
 	select {
 	case <-conn.done():
 		return fmt.Errorf("attempt to send a client message on a closed websocket connection")
+	case <-conn.closed:
+		return fmt.Errorf("attempt to send a client message on a closed websocket connection")
 	default:
-		conn.clientMessages <- clientMessage
+	}
+	select {
+	case conn.clientMessages <- clientMessage:
+	case <-conn.done():
+		return fmt.Errorf("attempt to send a client message on a closed websocket connection")
 	}
 	return nil
 }
